@@ -2,12 +2,14 @@
 C17 (round 2) — voice estimation with the contig-mapping search INSIDE the model
 (Model/Vosa.lean: VoSA.__init__, make_contigs, Contig, NoteStream, Voice(Manager),
 VoSA.estimate_voices, pairwise_cost, est_best_connections, note_array), helper lemmas in
-Proofs/C17Vosa.lean.  The search is no longer a parameter: what remains assumed is only that the
-modelled search answers at all (`run … = some …`, i.e. the code does not raise inside VoSA).
+Proofs/C17Vosa*.lean.  The search is no longer a parameter and nothing about it is assumed: the
+modelled search is proved to answer (never `none` = the code does not raise inside VoSA) on every
+non-empty array and to answer every id exactly once.
 -/
 import PartituraModel.Props.C17
 import PartituraModel.Proofs.C17Vosa
 import PartituraModel.Proofs.C17VosaTotal
+import PartituraModel.Proofs.C17VosaCtx
 
 namespace C17
 open Model Gen
@@ -43,22 +45,50 @@ theorem offsets_total (offs : List Rat) (mono : Bool) (notes : List Voices.VNote
 
 /-! ### estimate_voices with the modelled search -/
 
-/-- totality and well-formedness with the search inside the model, both modes, zero-duration notes
-    included, any rounding of `onset + duration` (`offs`): if the modelled search answers (does not
-    raise), every input note receives exactly one voice, all voices are ≥ 1 and they are numbered 1..k
-    without gaps.  PARTIAL: that the search itself never raises is not proved (it is compared with the
-    implementation on every generated case). -/
-theorem voices_total_partial (offs : List Rat) (mono : Bool) (notes : List Voices.VNote) (hne : notes ≠ [])
-    (hl : offs.length = notes.length)
-    (hrun : ∀ rows, Vosa.withOffsets offs (Voices.vosaInput mono notes) = some rows → (Vosa.run rows).isSome) :
+/-- the modelled search never raises on a non-empty array: grace notes always find a main note,
+    `make_contigs` never reads an unbound `last_tp`, every `Contig` has non-empty streams and no more
+    sounding notes than streams, every index the crystallisation loop uses (`vm[es]`, `streams[ns]`,
+    `Voice.first/last`) exists — and it answers every id exactly once -/
+theorem vosa_total (rows : List Vosa.Row) (hne : rows ≠ []) :
+    ∃ out, Vosa.run rows = some out ∧ (out.map (·.1)).Perm (rows.map (·.1)) := by
+  obtain ⟨cs, hcs⟩ := Option.isSome_iff_exists.mp (C17X.search_isSome rows hne)
+  have h : Vosa.run rows = some ((Vosa.byOnset (Vosa.mkNotes rows)).map fun n => (n.id, Vosa.voiceOut cs.2.voice n)) := by
+    simp [Vosa.run, hcs]
+  exact ⟨_, h, C17S.run_covers rows _ h⟩
+
+/-- the empty array is rejected (`np.max` of an empty array raises) -/
+theorem vosa_empty : Vosa.run [] = none := by decide
+
+/-- totality and well-formedness of `estimate_voices` with the search inside the model — no
+    hypothesis about the search left: both modes, zero-duration notes included, any rounding of
+    `onset + duration` (`offs`): every input note receives exactly one voice, all voices are ≥ 1 and
+    they are numbered 1..k without gaps -/
+theorem voices_total (offs : List Rat) (mono : Bool) (notes : List Voices.VNote) (hne : notes ≠ [])
+    (hl : offs.length = notes.length) :
     ∃ out, Vosa.estimateVoicesWith offs mono notes = some out ∧ out.length = notes.length ∧
       (∀ x ∈ out, 1 ≤ x) ∧ ∃ k : Int, ∀ x, x ∈ out ↔ 1 ≤ x ∧ x ≤ k := by
   obtain ⟨rows, hrows⟩ := offsets_total offs mono notes hl
-  obtain ⟨o, ho⟩ := Option.isSome_iff_exists.mp (hrun rows hrows)
+  have hrne : rows ≠ [] := by
+    intro e
+    have hids := C17S.withOffsets_ids offs _ rows hrows
+    rw [e] at hids
+    obtain ⟨id, hid, _⟩ := (C17V.equivs_facts mono notes).2 0 (by
+      cases notes with
+      | nil => exact absurd rfl hne
+      | cons a r => simp)
+    rw [← hids] at hid
+    simp at hid
+  obtain ⟨o, ho, _⟩ := vosa_total rows hrne
   have hc := vosa_model_covers offs mono notes rows hrows o ho
   obtain ⟨out, h1, h2, h3, h4⟩ := total_given_vosa (fun _ => o) mono notes hne hc
   refine ⟨out, ?_, h2, h3, h4⟩
   simp only [Vosa.estimateVoicesWith, hne, if_false, hrows, ho, Option.bind_some, h1]
+
+/-- the same with exact sums as offsets -/
+theorem voices_total_exact (mono : Bool) (notes : List Voices.VNote) (hne : notes ≠ []) :
+    ∃ out, Vosa.estimateVoicesExact mono notes = some out ∧ out.length = notes.length ∧
+      (∀ x ∈ out, 1 ≤ x) ∧ ∃ k : Int, ∀ x, x ∈ out ↔ 1 ≤ x ∧ x ≤ k :=
+  voices_total (Vosa.exactOffsets notes) mono notes hne (by simp [Vosa.exactOffsets])
 
 /-- the hypotheses are satisfiable and the conclusion is not vacuous: C major triad as a chord plus
     a passing note, chord mode, evaluated by the kernel (three voices 1, 2, 3 from the top) -/
@@ -153,5 +183,9 @@ theorem pairwise_cost_entry (skip : Array Nat) (c n : Vosa.N) (sc sn : Nat)
     · simp only [h1, if_false]
       push Not at h1
       simp [h1.1, h1.2]
+
+/-- non-vacuity: a skipped stream (skip_contig 1 on the left note) costs MAX_COST whatever the pitches -/
+example : Vosa.cost1 #[1, 0] { ix := 0, id := 0, p := 60, on := 0, du := 1, off := 1 }
+    { ix := 1, id := 1, p := 62, on := 1, du := 1, off := 2 } = some VOSA_MAX_COST := by decide
 
 end C17
